@@ -559,6 +559,12 @@ func init() {
 	// objects) swallow it.
 	fprint := func(in *Interp, w Value, s Str) Value {
 		if iv, ok := w.(Iface); ok && iv.T != nil && !strings.HasPrefix(iv.T.String(), "opaque:") {
+			if p, isPtr := iv.V.(Ptr); isPtr && iv.T.String() == "*os.File" {
+				// os.Stdout/os.Stderr (not opened through the model file system): swallow
+				if p.C == nil || in.sideTab[fmt.Sprintf("os:file:%d", p.C.ID)] == nil {
+					return Tuple{intC(len(s.B)), Iface{}}
+				}
+			}
 			if _, isOpaque := iv.V.(Opaque); !isOpaque {
 				if wf := in.findMethod(iv.T, "Write"); wf != nil {
 					cells := make([]*Cell, len(s.B))
